@@ -6,7 +6,7 @@ use crate::view::View;
 
 fn budget(t: Tier) -> u64 {
     match t {
-        Tier::Quick => 1200,
+        Tier::Quick => 3_600,
         Tier::Thorough => 60_000,
     }
 }
